@@ -116,10 +116,7 @@ class Family:
 
 def _detect(rec, rules, multipliers=None):
     spec = K.RULESETS[rules]
-    if multipliers is not None:
-        # what rule parsing does with the multipliers of the taxon
-        spec = [(name, int(cutoff * multipliers.cutoff), int(neigh * multipliers.neighbourhood), tree, sup, ext)
-                for name, cutoff, neigh, tree, sup, ext in spec]
+    # the rule set applies the multipliers of the taxon itself (once), as the copy made by hmm_detection.get_ruleset does
     ruleset = c03.make_ruleset(spec, K.HITS[rules], multipliers)
     results = cluster_prediction.detect_protoclusters_and_signatures(rec, ruleset)
     results.annotate_cds_features()
